@@ -408,18 +408,23 @@ class ThrRunner:
             except BaseException as e:  # noqa: BLE001
                 box["e"] = e
 
+        before = set(_real_threading.enumerate())
         th = _real_threading.Thread(target=target, daemon=True)
         th.start()
         th.join(HANG_S)
         waited = HANG_S
+        stuck = 0
         while th.is_alive():
-            # a hang, or only a slow machine? It is a hang when the call is blocked in a wait while no worker of
-            # the pool is alive any more (nobody can ever satisfy the join); otherwise keep waiting (bounded)
+            # a hang, or only a slow / loaded machine? It is a hang when the call stays blocked in a wait while no thread it
+            # started is alive any more (nobody can ever satisfy the join) - observed on several consecutive samples, because on a
+            # loaded machine the caller can sit in `wait` for a moment after the last worker has already notified it and exited;
+            # otherwise keep waiting (bounded)
             import sys as _sys
-            workers = [t for t in _real_threading.enumerate() if "_exec_job_worker" in t.name and t.is_alive()]
+            workers = [t for t in _real_threading.enumerate() if t not in before and t is not th and t.is_alive()]
             fr = _sys._current_frames().get(th.ident)
             blocked = fr is not None and fr.f_code.co_name in ("wait", "join", "_wait_for_tstate_lock", "acquire")
-            if (blocked and not workers) or waited >= 40.0:
+            stuck = stuck + 1 if (blocked and not workers) else 0
+            if stuck >= 6 or waited >= 60.0:
                 self.hung = True
                 raise ExecHang(f"exec_jobs did not return after {waited:.0f} s of real time: blocked in `{fr.f_code.co_name if fr else '?'}` "
                                f"with {len(workers)} live workers (no callback of the scenario blocks)")
